@@ -168,6 +168,61 @@ def handle (e : Env) (w : Nat) (op : String) (args : List String) (got : String)
       | _, _ => none
     let r ← goD n rest none
     cls (fmtPoint r)
+  | "ep_write_bin", [len, pack, p] => do
+    let len ← len.toNat?
+    let p ← parsePoint p
+    let nb := (Nat.log2 c.p) / 8 + 1
+    let pairf := e.kv.lookup "pairf" != some "0"
+    let R := 2 ^ (w * ((Nat.log2 c.p) / w + 1))
+    let body := match p with
+      | none => if len < 1 then "err" else natToHexPad 0 (2 * len)
+      | some (x, y) =>
+        if pack == "1" then
+          if len < nb + 1 then "err" else
+          -- the sign bit: y > (p-1)/2 on pairing-friendly curves, otherwise the low bit of the stored (Montgomery) form of y
+          let b := if pairf then (if y > c.p / 2 then 1 else 0) else (y * R % c.p) % 2
+          natToHexPad (2 + b) 2 ++ natToHexPad x (2 * nb) ++ (if len > nb + 1 then natToHexPad 0 (2 * (len - nb - 1)) else "")
+        else
+          if len < 2 * nb + 1 then "err" else
+          "04" ++ natToHexPad x (2 * nb) ++ natToHexPad y (2 * nb) ++ (if len > 2 * nb + 1 then natToHexPad 0 (2 * (len - 2 * nb - 1)) else "")
+    let size := match p with
+      | none => 1
+      | some _ => if pack == "1" then nb + 1 else 2 * nb + 1
+    let s := (if body == "" then "." else body) ++ " size=" ++ toString size
+    cls s
+  | "ep_read_bin", [h] => do
+    let nb := (Nat.log2 c.p) / 8 + 1
+    let pairf := e.kv.lookup "pairf" != some "0"
+    let R := 2 ^ (w * ((Nat.log2 c.p) / w + 1))
+    let bytes := if h == "." then 0 else h.length / 2
+    let tag := ((h.take 2).toString |> parseHexNat).getD 256
+    let field := fun (i : Nat) => parseHexNat ((h.drop (2 + 2 * nb * i)).take (2 * nb)).toString
+    let okPt := fun (x y : Nat) => fmtPoint (some (x, y)) ++ " on=1"
+    let s : String :=
+      if bytes = 1 then (if tag = 0 then "inf on=1" else "err")
+      else if bytes = nb + 1 then
+        match field 0 with
+        | some x =>
+          if x ≥ c.p ∨ (tag ≠ 2 ∧ tag ≠ 3) then "err" else
+          let rhs := (x * x % c.p * x + c.a * x + c.b) % c.p
+          -- a square root exists iff rhs is a square; pick the root whose sign bit matches the tag
+          if rhs ≠ 0 ∧ powMod rhs ((c.p - 1) / 2) c.p ≠ 1 then "err" else
+          -- the implementation's root is validated by the spec predicate on its output (below); here: expected sign
+          match (got.splitOn " ") with
+          | [pt, "on=1"] => match parsePoint pt with
+            | some (some (x', y')) =>
+              let b := if pairf then (if y' > c.p / 2 then 1 else 0) else (y' * R % c.p) % 2
+              if x' = x ∧ y' < c.p ∧ y' * y' % c.p = rhs ∧ b = tag - 2 then got else "<the root of the curve equation with the tagged sign>"
+            | _ => "<a point>"
+          | _ => "<a point>"
+        | none => "err"
+      else if bytes = 2 * nb + 1 then
+        match field 0, field 1 with
+        | some x, some y =>
+          if tag ≠ 4 ∨ x ≥ c.p ∨ y ≥ c.p ∨ !(onCurve c (some (x, y))) then "err" else okPt x y
+        | _, _ => "err"
+      else "err"
+    cls s
   | _, _ => none
 
 end Driver.C03
